@@ -289,10 +289,16 @@ func (e *c12fEnv) enqueue(rng *Rng, qi int, kind int) {
 		}
 		e.emit(fmt.Sprintf("c:%d:%s:%d", qi, dir, pieces), "e")
 	case 4:
-		// an exported command type nobody handles
+		// FlushCommand: handled by the default copy middleware since the repair (one FlushReq per GPU); the
+		// global-storage middleware has no handler for it (loud panic, see the witness in c12FullWitnesses)
+		if e.magic {
+			e.d.Enqueue(q, &driver.NoopCommand{ID: id})
+			e.owed = true
+			e.emit(fmt.Sprintf("n:%d", qi), "e")
+			return
+		}
 		e.d.Enqueue(q, &driver.FlushCommand{ID: id})
 		e.owed = true
-		e.dirtyIn = true
 		e.emit(fmt.Sprintf("f:%d", qi), "e")
 	}
 }
@@ -554,7 +560,7 @@ func c12FullScenario(r *Run, rng *Rng, kind string) {
 			if kind == "mig" {
 				kd = rng.Pick(0, 1)
 			}
-			if kind == "foreign" && rng.Chance(10) {
+			if kind != "mig" && rng.Chance(10) {
 				kd = 4
 			}
 			e.enqueue(rng, rng.Intn(nq), kd)
@@ -679,6 +685,8 @@ func c12FullWitnesses(r *Run, rng *Rng) {
 		r.Count("full.witness.overwritten")
 	}
 	{
+		// the trace on which the driver used to wedge (W.Full.no_lost_wakeup_any_command_before_fix_refuted):
+		// a FlushCommand with a Noop behind it; repaired: it is started, answered and the queue drains
 		e := c12fNew(r, rng, -1)
 		e.kick()
 		e.tick()
@@ -688,12 +696,42 @@ func c12FullWitnesses(r *Run, rng *Rng) {
 		e.kick()
 		e.tick()
 		e.tick()
+		wedged := e.qs[0].NumCommand() == 2 && !e.awake()
+		for round := 0; round < 12; round++ {
+			for e.retrieve() {
+			}
+			if len(e.ext) > 0 {
+				e.answer(0) // the port takes one answer at a time
+			}
+			e.tick()
+		}
 		e.finish()
 		r.Checked("full.witness-unhandled")
-		if e.qs[0].NumCommand() == 2 && !e.awake() {
-			r.Failf("C12.driver.unhandled-command", e.line(), "Driver.Enqueue accepted a FlushCommand; no stage of Tick and no middleware handles it: Tick reports no progress with the command at the head of its queue, the Noop behind it never runs and DrainCommandQueue on this queue never returns")
+		if wedged || e.qs[0].NumCommand() != 0 {
+			r.Failf("C12.driver.unhandled-command", e.line(), "Driver.Enqueue accepted a FlushCommand; no stage of Tick and no middleware handles it: Tick reports no progress with the command at the head of its queue, the Noop behind it never runs and DrainCommandQueue on this queue never returns (%d command(s) left)", e.qs[0].NumCommand())
 		}
 		r.Count("full.witness.unhandled")
+	}
+	{
+		// a command no middleware handles (FlushCommand under the global-storage copy middleware) must fail loudly,
+		// naming the type, instead of staying at the head of its queue
+		e := c12fNew(r, rng, -2)
+		id := sim.GetIDGenerator().Generate()
+		e.d.Enqueue(e.qs[0], &driver.FlushCommand{ID: id})
+		f := ""
+		func() {
+			defer func() {
+				if x := recover(); x != nil {
+					f = fmt.Sprint(x)
+				}
+			}()
+			e.d.Tick()
+		}()
+		r.Checked("full.witness-unhandled-loud")
+		if !strings.Contains(f, "FlushCommand") {
+			r.Failf("C12.driver.unhandled-command", "c12 full magic=1 ; f:0 ; T", "a FlushCommand under the global-storage copy middleware has no handler: expected a panic naming the type, got %q with %d command(s) queued", f, e.qs[0].NumCommand())
+		}
+		r.Count("full.witness.unhandled-loud")
 	}
 }
 
